@@ -419,6 +419,14 @@ def correspondence(ctx):
             if not ok:
                 break
         ctx.count(f"random_histories_{mode}")
+        if ok:
+            # the ABSTRACT dialog of the refinement theorem (C16_refine: list of (frequency, order) pairs in ascending frequency),
+            # executed by the driver, against the real dialog's final state: ties the SPEC, not only the state machine, to the code
+            spec = ctx.model("pick_spec", events=[ev_json(e) for e in evs], **plot_json(plot, data))
+            o = obs(s)
+            sok = (spec["shift"] == o[0] and [fl(q[0]) for q in spec["pairs"]] == o[1] and [int(q[1]) for q in spec["pairs"]] == o[2])
+            ctx.corr(f"spec[{plot}]", sok, {"plot": plot, "data": data, "band": band, "events": evs} if not sok else None,
+                     spec, {"state": o}, ("spec", len(o[1]), o[0]))
         if k == 0:
             ctx.sample({"plot": plot, "data": data, "events": evs, "final": obs(s)})
         # (3) hand-over to extraction (list-of-orders branch of SSI_mpe / pLSCF_mpe)
